@@ -23,6 +23,10 @@ class World:
 
     def resolve(self, module, name):
         self.log.append(("import", module, name))
+        if name == "frozenset" and module in BUILTIN_FAMILY:
+            # transparent builtin: fickling renders the FROZENSET opcode as a frozenset({...}) call, so
+            # the name must mean the real type on both sides (its calls are then not logged on either)
+            return frozenset
         return self.G(module, name)
 
 
@@ -76,7 +80,7 @@ class IStub(Stub):
         try:
             self.created = (
                 "obj",
-                kind,
+                "call" if kind == "new" else kind,  # NEWOBJ => cls(*args) is fickling's documented rendering
                 canon_creation(callee) if callee is not None else None,
                 tuple(canon_creation(x) for x in self.args),
                 tuple(sorted(((k, canon_creation(x)) for k, x in self.kwargs.items()), key=repr)),
